@@ -86,3 +86,7 @@ Definition init_model (encmap : list (text * text)) (caller root_dir : text) (pa
   mkView (fst r) (snd r) (normpath (snd r)) use_subpath index reload (compile_encodings content_encodings encmap) [].
 
 Definition nonempty_list {A} (l : list A) : bool := match l with [] => false | _ => true end.
+
+(* a, b = s.split(c, 1) where c occurs in s (the translator emits it only under that knowledge) *)
+Definition split1 (ch : N) (s : text) : text * text :=
+  match split_once ch s with Some p => p | None => (s, []) end.
